@@ -413,7 +413,11 @@ func drive(id string, p Prop, tier string) int {
 		if v.race {
 			detail = raceSummary(readAny(filepath.Join(e.work, "final")))
 		} else if i := strings.Index(cr.out, "VIOLATED"); i >= 0 {
-			detail = strings.SplitN(cr.out[i:], "\n", 2)[0]
+			lines := strings.Split(strings.TrimSpace(cr.out[i:]), "\n")
+			if len(lines) > 10 {
+				lines = lines[:10]
+			}
+			detail = strings.Join(lines, "\n")
 		}
 		fmt.Printf("VIOLATION property=%s replay=%s\n", id, dst)
 		fmt.Printf("  class=%s seed=%d run_seed=%d plan=%s\n  %s\n", v.rec.Class, e.seed, v.rec.RunSeed, v.plan.Name, strings.Replace(detail, "\n", "\n  ", -1))
